@@ -107,15 +107,35 @@ fn admin_probe(which: Which, kv: &Kv, time: u64, p: &str) -> bool {
     }
 }
 
-pub fn treasury_kv(admin: &str, trader: &str, routes: Vec<Vec<treasury::state::SwapRoute>>) -> Kv {
-    let mut kv = Kv::default();
+pub fn try_treasury_kv(admin: &str, trader: &str, routes: Vec<Vec<treasury::state::SwapRoute>>) -> Option<Kv> {
     let api = SimApi { prefix: PROTO_PREFIX };
     let q = NoQuerier;
+    let inst = |routes: Vec<Vec<treasury::state::SwapRoute>>| -> Option<Kv> {
+        let mut kv = Kv::default();
+        let info = MessageInfo { sender: Addr::unchecked(admin), funds: vec![] };
+        let deps = DepsMut { storage: &mut kv, api: &api, querier: QuerierWrapper::new(&q) };
+        let msg = treasury::msg::InstantiateMsg { admin: None, trader: Some(trader.to_string()), allowed_swap_routes: routes };
+        match guarded(|| treasury::contract::instantiate(deps, env(T0), info, msg)) {
+            Ok(Ok(_)) => Some(kv),
+            _ => None,
+        }
+    };
+    if let Some(kv) = inst(routes.clone()) {
+        return Some(kv);
+    }
+    // instantiation refused this allow-list: try to install it through UpdateConfig on a valid instance
+    let mut kv = inst(vec![])?;
     let info = MessageInfo { sender: Addr::unchecked(admin), funds: vec![] };
     let deps = DepsMut { storage: &mut kv, api: &api, querier: QuerierWrapper::new(&q) };
-    let msg = treasury::msg::InstantiateMsg { admin: None, trader: Some(trader.to_string()), allowed_swap_routes: routes };
-    treasury::contract::instantiate(deps, env(T0), info, msg).expect("treasury instantiate");
-    kv
+    let msg = treasury::msg::ExecuteMsg::UpdateConfig { trader: None, allowed_swap_routes: Some(routes) };
+    match guarded(|| treasury::contract::execute(deps, env(T0), info, msg)) {
+        Ok(Ok(_)) => Some(kv),
+        _ => None,
+    }
+}
+
+pub fn treasury_kv(admin: &str, trader: &str, routes: Vec<Vec<treasury::state::SwapRoute>>) -> Kv {
+    try_treasury_kv(admin, trader, routes).expect("treasury instantiate")
 }
 
 pub struct OwnScenario {
